@@ -6,7 +6,10 @@
 (*          RoundTripOK - the text is well-formed JSON by the recogniser of    *)
 (*          JsonForms, no error, and v' = v (or v is in the excluded class).   *)
 (*   Dec    json.Unmarshal of a document the encoder did not produce (mutated, *)
-(*          truncated, wrong kind, out of range): accepted iff DecodeOK.       *)
+(*          truncated, wrong kind, out of range): accepted iff DecodeOK (error, *)
+(*          or ok on a well-formed document) and, when the document is exactly *)
+(*          the encoder's text for a value (field encof), EncoderTextOK.  An    *)
+(*          accepted document that encodes no value is only printed as OBS.    *)
 (*   Direct UnmarshalJSON called directly on such a document: any result but a *)
 (*          panic.                                                             *)
 (*   Panic  has no action.                                                     *)
@@ -41,7 +44,9 @@ JudgeRT ==
 JudgeDec ==
   LET doc == HexToBytes(E.doc) IN
   /\ (WF(doc) = (E.gowf = 1)) \/ PrintT(<<"WFDIFF", l>>)
+  /\ DecodeStrict(E.ty, doc, E.res, E.back) \/ PrintT(<<"OBS", l>>)       \* observation, not a verdict
   /\ DecodeOK(E.ty, doc, E.res, E.back)
+  /\ Has("encof") => EncoderTextOK(E.ty, E.encof, E.res, E.back)        \* doc = the encoder's text for E.encof
 
 Judge == CASE E.k = "Reset"  -> l = seg
            [] E.k = "RT"     -> JudgeRT
